@@ -49,6 +49,9 @@ def mix(rnd, tier, scratch, seed):
                             continue
                         c["script"] = sc
                         c["sched"] = [rnd.randint(20, 200) for _ in range(rnd.randint(0, 4))]
+                        # the two directions of a stream are independent: in a third of these the handler sends from a goroutine of
+                        # its own while it receives (same abstract script, concurrent execution)
+                        c["duplex"] = (k % 3 == 2) and not c["maxrecv"]
                         cases.append(c)
     # damaged compressed frames in between (the failing call must not disturb its neighbours)
     for k in range(150 if tier == "quick" else 600):
